@@ -137,6 +137,7 @@ class GenericContextRegistry(
         try:
             self._cache = self._caches[key]
             self._units.maps.insert(0, self._context_units[key])
+            return
         except KeyError:
             pass
 
